@@ -1,6 +1,5 @@
 use std::{
     cmp::Ordering,
-    collections::HashSet,
     fmt::Debug,
     hash::{Hash, Hasher},
 };
@@ -12,6 +11,7 @@ use std::time::Instant;
 use web_time::Instant;
 
 use cactus::Cactus;
+use indexmap::IndexSet;
 use cfgrammar::{Span, TIdx};
 use lrtable::{Action, StIdx};
 use num_traits::{AsPrimitive, PrimInt, Unsigned};
@@ -563,12 +563,14 @@ fn simplify_repairs<
         }
     }
 
-    // Use a HashSet as a quick way of deduplicating repair sequences: occasionally we can end up
-    // with hundreds of thousands (!), and we don't have a sensible ordering on ParseRepair to make
-    // it plausible to do a sort and dedup.
-    let mut hs: HashSet<Vec<ParseRepair<LexerTypesT::LexemeT, StorageT>>> =
+    // Use an (insertion ordered) set as a quick way of deduplicating repair sequences:
+    // occasionally we can end up with hundreds of thousands (!), and we don't have a sensible
+    // ordering on ParseRepair to make it plausible to do a sort and dedup. Keeping the order in
+    // which the sequences were found (and sorting stably below) makes the ranking, and thus the
+    // repair sequence which is applied, a function of the input.
+    let is: IndexSet<Vec<ParseRepair<LexerTypesT::LexemeT, StorageT>>> =
         all_rprs.drain(..).collect();
-    all_rprs.extend(hs.drain());
+    all_rprs.extend(is);
 
     // Sort repair sequences:
     //   1) by whether they contain Inserts that are %insert_avoid
@@ -583,7 +585,7 @@ fn simplify_repairs<
         }
         false
     };
-    all_rprs.sort_unstable_by(|x, y| {
+    all_rprs.sort_by(|x, y| {
         let x_cai = contains_avoid_insert(x);
         let y_cai = contains_avoid_insert(y);
         if x_cai && !y_cai {
@@ -599,8 +601,8 @@ fn simplify_repairs<
 /// Convert `PathFNode` candidates in `cnds` into vectors of `ParseRepairs`s and rank them (from
 /// highest to lowest) by the distance they allow parsing to continue without error. If two or more
 /// `ParseRepair`s allow the same distance of parsing, then the `ParseRepair` which requires
-/// repairs over the shortest distance is preferred. Amongst `ParseRepair`s of the same rank, the
-/// ordering is non-deterministic.
+/// repairs over the shortest distance is preferred. `ParseRepair`s of the same rank stay in the
+/// order in which they were found.
 fn rank_cnds<
     'a,
     StorageT: 'static + Debug + Eq + Hash + PrimInt + Unsigned,
